@@ -2,6 +2,7 @@
 the tuple of the fields the property's mechanism names (frame: a stub atom with only those slots bound raises on any other read), for
 all field values.  `hash` itself is rebound to a recorder so the hashed tuple is observed, not its hash value.
 Also the dynamic-label predicates of C15 (is_dynamic) and equality/hash of containers being defined on the canonical string (C01)."""
+from vlib.env import Unanchored
 import ast
 import types
 
@@ -22,7 +23,7 @@ def _hash_expr(rel, qual):
             e = ast.Expression(n.args[0])
             ast.fix_missing_locations(e)
             return compile(e, env.repo_path(rel), 'eval'), ast.unparse(f)
-    raise LookupError(f'{rel}:{qual}: no hash() call')
+    raise Unanchored(f'{rel}:{qual}: no hash() call')
 
 
 def _or0(x):
